@@ -287,7 +287,11 @@ Definition step (c : conn) (ev : val) : option (conn * list val * Z) :=
   if dead c then Some (c, [], 0) else
   match ev with
   | VL [VZ 1; VZ id; VZ fin; VZ cl; VZ bad] =>
-    let '(c', fs) := process_syn c id (negb (fin =? 0)) cl (negb (bad =? 0)) in Some (c', fs, 0)
+    (* newWriterAndRequest refuses: 1 a pseudo header is missing, 3 scheme is neither http nor https,
+       2 HEAD with an open body, cl < -1 an unparsable / negative Content-Length on an open body *)
+    let f := negb (fin =? 0) in
+    let refused := (bad =? 1) || (bad =? 3) || ((bad =? 2) && negb f) || ((cl <? -1) && negb f) in
+    let '(c', fs) := process_syn c id f cl refused in Some (c', fs, 0)
   | VL [VZ 2; VZ id; VZ n; VZ fin] => let '(c', fs) := process_data c id n (negb (fin =? 0)) in Some (c', fs, 0)
   | VL [VZ 3; VZ id; VZ d] => let '(c', fs) := process_wu c id d in Some (c', fs, 0)
   | VL [VZ 4; VZ id; VZ _] => let '(c', fs) := process_rst c id in Some (c', fs, 0)
